@@ -152,6 +152,8 @@ func replay(r *core.Run, raw json.RawMessage) bool {
 		// other kinds are re-run through their (small, exhaustive) sub-exploration
 		sub := core.NewScratchRun(r)
 		switch c.Kind {
+		case "fault":
+			faultSources(sub, core.BitsOfBuf([]byte{0xa7, 0x3c, 0xd1, 0x6b, 0xe2}, 0, 40))
 		case "read64", "write64", "buffer", "bitstring":
 			tables(sub)
 		case "ahead", "progress":
